@@ -100,6 +100,22 @@ ATOMS = {
         "atom:m_error_range_too_narrow",
     "if(VL_TYPE(vlp)==VNACAL_T16||VL_TYPE(vlp)==VNACAL_U16)|for(vnmp=vnp->vn_measurement_list;vnmp!=NULL;vnmp=vnmp->vnm_next)|"
     "for(int s_cell=0;s_cell<s_cells;++s_cell)|vnmp->vnm_s_matrix[s_cell]==NULL": "atom:s_matrix_incomplete_16",
+    # the same tests after fixes DC92 (NaN / infinite / negative entries), DC93 (infinite calibration frequency, NaN in the
+    # frequency vector of vnacal_apply) and DC94 (frequency_vector is not looked at when frequencies == 1)
+    "for(int i=0;i<vnp->vn_frequencies;++i)|isnan(frequency_vector[i])||isinf(frequency_vector[i])||frequency_vector[i]<0.0":
+        "atom:fv_has_nan_inf_or_negative",
+    "for(int i=0;i<frequencies;++i)|isnan(sigma_nf_vector[i])||isinf(sigma_nf_vector[i])||sigma_nf_vector[i]<=0": "atom:sigma_nf_has_invalid",
+    "if(sigma_tr_vector!=NULL)|for(int i=0;i<frequencies;++i)|isnan(sigma_tr_vector[i])||isinf(sigma_tr_vector[i])||sigma_tr_vector[i]<0":
+        "atom:sigma_tr_has_invalid",
+    "if(frequency_vector!=NULL)|for(int i=0;i<frequencies;++i)|isnan(frequency_vector[i])||isinf(frequency_vector[i])||frequency_vector[i]<0.0":
+        "atom:m_error_fv_has_invalid",
+    "if(frequency_vector!=NULL&&frequencies>1)|for(int i=0;i<frequencies;++i)|isnan(frequency_vector[i])||isinf(frequency_vector[i])||"
+    "frequency_vector[i]<0.0": "atom:m_error_fv_has_invalid_n_gt_1",
+    "if(frequency_vector!=NULL&&frequencies>1)|for(int i=1;i<frequencies;++i)|frequency_vector[i-1]>=frequency_vector[i]":
+        "atom:m_error_fv_not_ascending_n_gt_1",
+    "if(frequency_vector!=NULL&&frequencies>1)|if(vnp->vn_frequencies>0)|frequency_vector[0]>lower||frequency_vector[frequencies-1]<upper":
+        "atom:m_error_range_too_narrow_n_gt_1",
+    "for(int i=0;i<vaa.vaa_frequencies;++i)|isnan(vaa.vaa_frequency_vector[i])": "atom:apply_fv_has_nan",
     # vnacal_add_calibration
     "vnp->vn_vcp!=vcp": "atom:vnp_of_another_vcp",
     # _vnacal_apply_common
@@ -289,6 +305,200 @@ def report_categories(text):
     return re.findall(r"\b_vnacal_error\s*\(\s*\w+\s*,\s*VNAERR_([A-Z]+)", text)
 
 
+# ----------------------------------------------------------------------------- what a piece of C text can write
+TYPE_WORDS = set("const static unsigned struct signed volatile register".split())
+KEYWORDS = set("if for while switch return sizeof else do case default goto break continue".split())
+# calls that neither write to memory reached from an argument nor leave the function
+CALL_OK = set("isnan isinf isnormal cabs fabs sqrt strerror va_start va_end assert abort strcmp".split()) | PURE_MACROS
+# calls that write to their first argument: allowed only on a local array / local structure
+CALL_FIRST_ARG_LOCAL = set("memset memcpy memmove qsort _vnacal_layout".split())
+
+
+class Decls(object):
+    """names declared in a function: by-value scalars / structures, arrays, pointers (parameters included)"""
+    def __init__(self):
+        self.scalars, self.arrays, self.pointers = set(), set(), set()
+
+    def add_declarators(self, text):
+        """text = 'type declarator, declarator ...' of ONE declaration (no trailing ';'); -> True when it is one"""
+        t = text.strip()
+        cut = len(t)
+        depth = 0
+        for k, ch in enumerate(t):
+            if ch in "([":
+                if depth == 0 and ch == "[":
+                    cut = min(cut, k)
+                depth += 1
+            elif ch in ")]":
+                depth -= 1
+            elif ch == "=" and depth == 0 and t[k:k + 2] != "==" and (k == 0 or t[k - 1] not in "!<>=+-*/|&^"):
+                cut = min(cut, k)
+            elif ch == "," and depth == 0:
+                cut = min(cut, k)
+        head = t[:cut]
+        if not re.match(r"^[\w\s\*]+$", head):
+            return False
+        ids = [x for x in re.findall(r"[A-Za-z_]\w*", head)]
+        if any(x in KEYWORDS for x in ids):
+            return False
+        core = [x for x in ids if x not in TYPE_WORDS]
+        if len(core) < 2:
+            return False
+        # split the declarators at top-level commas (the type words belong to the first one)
+        parts, depth, last = [], 0, 0
+        for k, ch in enumerate(t):
+            if ch in "([{":
+                depth += 1
+            elif ch in ")]}":
+                depth -= 1
+            elif ch == "," and depth == 0:
+                parts.append(t[last:k])
+                last = k + 1
+        parts.append(t[last:])
+        for n, part in enumerate(parts):
+            d = re.split(r"=(?!=)", part, 1)[0]
+            m = re.search(r"([A-Za-z_]\w*)\s*((?:\[[^\]]*\]\s*)*)$", d.strip())
+            if not m:
+                return False
+            name = m.group(1)
+            before = d[:m.start(1)]
+            stars = "*" in (before if n else before[before.rfind(core[-2]) + len(core[-2]):] if len(parts) == 1 or n == 0 else before)
+            if m.group(2).strip():
+                (self.pointers if stars else self.arrays).add(name)
+            elif stars:
+                self.pointers.add(name)
+            else:
+                self.scalars.add(name)
+        return True
+
+
+def collect_decls(params, body):
+    d = Decls()
+    for p in split_args(params):
+        p = p.strip()
+        if p and p != "void":
+            d.add_declarators(p)
+    def walk(sts):
+        for st in sts:
+            if st["kind"] == "simple":
+                t = st["text"].strip().rstrip(";")
+                if not re.match(r"^(return|goto|break|continue)\b", t):
+                    d.add_declarators(t)
+            elif st["kind"] == "for":
+                init = st["cond"].split(";")[0]
+                d.add_declarators(init)
+            for key in ("body", "else"):
+                walk(st.get(key, []))
+    walk(eo.statements(body))
+    return d
+
+
+ASSIGN_RE = re.compile(r"(\+\+|--|<<=|>>=|[+\-*/|&^%]=|=)")
+
+
+def lvalue_before(t, pos):
+    """the lvalue text that ends in front of position pos (an assignment operator), with a leading '*' when it is a
+    dereference"""
+    k = pos
+    while k > 0 and t[k - 1].isspace():
+        k -= 1
+    end = k
+    while k > 0:
+        ch = t[k - 1]
+        if ch == "]":
+            depth = 0
+            while k > 0:
+                k -= 1
+                if t[k] == "]":
+                    depth += 1
+                elif t[k] == "[":
+                    depth -= 1
+                    if depth == 0:
+                        break
+        elif ch.isalnum() or ch == "_" or ch == ".":
+            k -= 1
+        elif ch == ">" and k > 1 and t[k - 2] == "-":
+            k -= 2
+        elif ch == ")" :
+            # (*p) = .. / cast: give up: not an accepted lvalue
+            return None
+        elif ch.isspace() and k > 1 and (t[k - 2] in "].>" or t[k - 2].isalnum()) and False:
+            k -= 1
+        else:
+            break
+    lv = t[k:end]
+    j = k
+    while j > 0 and t[j - 1].isspace():
+        j -= 1
+    if j > 0 and t[j - 1] == "*":
+        # prefix star: a dereference unless the token in front of it is a name / number / closing bracket (declaration, product)
+        i = j - 1
+        while i > 0 and (t[i - 1].isspace() or t[i - 1] == "*"):
+            i -= 1
+        if i == 0 or not (t[i - 1].isalnum() or t[i - 1] in "_)]"):
+            lv = "*" + lv
+    return lv
+
+
+def lvalue_after(t, pos):
+    m = re.match(r"\s*(\*?\s*[A-Za-z_]\w*(?:\s*(?:->|\.)\s*\w+|\s*\[[^\]]*\])*)", t[pos:])
+    return re.sub(r"\s+", "", m.group(1)) if m else None
+
+
+def store_ok(lv, decls):
+    """may this lvalue be written without touching memory outside the function's own variables?"""
+    if lv is None or lv == "":
+        return False
+    lv = re.sub(r"\s+", "", lv)
+    m = re.match(r"^([A-Za-z_]\w*)(.*)$", lv)
+    if not m:
+        return False            # *p, (..)
+    name, rest = m.group(1), m.group(2)
+    if rest == "":
+        return name in decls.scalars or name in decls.pointers or name in decls.arrays
+    if "->" in rest:
+        return False
+    if rest.startswith("["):
+        return name in decls.arrays and "->" not in rest
+    if rest.startswith("."):
+        return name in decls.scalars
+    return False
+
+
+def is_neutral_text(text, decls):
+    """no store outside the function's own scalars / structures / array elements, no call outside the allow-lists"""
+    t = re.sub(r"\s+", " ", text)
+    for c in re.finditer(r"\b([A-Za-z_]\w*)\s*\(", t):
+        name = c.group(1)
+        if name in KEYWORDS or name in TYPE_WORDS or name in ("void", "int", "double", "bool", "char", "complex", "long", "float"):
+            continue
+        if name in CALL_OK:
+            continue
+        if name in CALL_FIRST_ARG_LOCAL:
+            close = eo.match_close(t, c.end() - 1, "(", ")")
+            first = split_args(t[c.end():close])[0]
+            m = re.match(r"^\s*(?:\(\s*void\s*\*\s*\)\s*)?(&?)\s*([A-Za-z_]\w*)\s*$", first)
+            if m and (m.group(2) in decls.arrays or (m.group(1) == "&" and m.group(2) in (decls.scalars | decls.arrays))):
+                continue
+            return False
+        return False
+    # prefix / postfix increments and assignments
+    masked = re.sub(r"==|!=|<=|>=", "~~", t)
+    for m in ASSIGN_RE.finditer(masked):
+        op = m.group(1)
+        if op in ("++", "--"):
+            lv = lvalue_before(masked, m.start())
+            if not lv:
+                lv = lvalue_after(masked, m.end())
+        else:
+            lv = lvalue_before(masked, m.start())
+        if not store_ok(lv, decls):
+            return False
+    return True
+
+
+
+
 class Translator(object):
     def __init__(self, srcdir):
         self.srcdir = srcdir
@@ -320,6 +530,7 @@ class Translator(object):
     def translate(self, fn, path, fail):
         params, body = eo.function_body(self.text(path), fn, path)
         stmts = eo.statements(body)
+        self.decls = collect_decls(params, body)
         locals_ = set()
         struct_locals = set()
         steps = []
@@ -368,6 +579,8 @@ class Translator(object):
                     continue
                 if self.neutral(text, locals_, struct_locals):
                     continue
+                if re.search(r"\b_vnacal_error\s*\(", text) or any(re.search(r"\b%s\s*\(" % n, text) for n in REPORTING_CALLEES):
+                    raise ContractError("%s: a report that is not followed by a failure exit in the same block: %r" % (fn, norm(text)[:120]))
                 working = True
                 emit_work()
                 continue
@@ -377,13 +590,28 @@ class Translator(object):
                 emit_work()
                 continue
             if working:
-                # behind the first write only a plain refusing test is still looked for (it would be a test behind a write)
-                try:
-                    got = self.compound(fn, st, fail, locals_) if kind == "if" else None
-                except ContractError:
-                    got = None
-                if got is not None and not all(g.startswith(("SDirect", "SReport", "SAlloc", "SLate")) for g in got):
-                    got = None
+                # behind the first write: a statement that can leave with a failure value after an argument refusal (a
+                # VNAERR_USAGE report, a reporting callee of that category, errno = EINVAL) is a TEST BEHIND A WRITE and is
+                # emitted as one - translated when it has an accepted shape, as the atom "test_behind_a_write" otherwise -
+                # so that the order fact (contracts_as_found) fails; other failures (numeric, allocation, callees) are work
+                exits = re.search(r"\breturn\s*\(?\s*(-\s*1|NULL|HUGE_VAL)\b|\bgoto\s+\w+\s*;", text)
+                usage = ("VNAERR_USAGE" in text or re.search(r"\berrno\s*=\s*EINVAL\b", text) or
+                         any(re.search(r"\b%s\s*\(" % n, text) and self.callee_category(n) == "USAGE" for n in REPORTING_CALLEES))
+                got = None
+                if exits and usage:
+                    try:
+                        got = self.compound(fn, st, fail, locals_)
+                    except ContractError:
+                        got = None
+                    if got is None or not all(g.startswith(("SDirect", "SReport")) for g in got):
+                        got = ['SReport (CTrue (CVar "atom:test_behind_a_write")) USAGE %s' % FVAL[fail]]
+                elif kind == "if":
+                    try:
+                        got = self.compound(fn, st, fail, locals_)
+                    except ContractError:
+                        got = None
+                    if got is not None and not all(g.startswith(("SAlloc", "SLate")) for g in got):
+                        got = None
             else:
                 got = self.compound(fn, st, fail, locals_)
             if got is None and (ALLOC_RE.search(text) or "_vnacommon_spline_calc" in text) and set(report_categories(text)) <= set(["SYSTEM"]):
@@ -407,47 +635,12 @@ class Translator(object):
         self.done[fn] = (params, steps)
         return steps
 
-    def neutral(self, text, locals_, struct_locals):
-        """declaration / computation on locals that touches no object memory and calls nothing that could"""
-        t = text.rstrip(";").strip()
-        for pat in NEUTRAL_CALLS:
-            if re.match(pat, t):
-                return True
-        for call in re.finditer(r"\b([A-Za-z_]\w*)\s*\(", t):
-            if call.group(1) not in PURE_MACROS and call.group(1) not in ("int", "double", "void", "const", "complex"):
-                return False
-        # single declarator whose initialiser / array bound contains commas: the head in front of the first '=' or '['
-        # consists of identifiers, 'const' and '*' only and has at least two identifiers (type, name)
-        cut = len(t)
-        for k, ch in enumerate(t):
-            if ch in "=[":
-                cut = k
-                break
-        head = t[:cut]
-        if re.match(r"^[\w\s\*]+$", head) and not (cut < len(t) and t[cut:cut + 2] == "=="):
-            ids = re.findall(r"[A-Za-z_]\w*", head)
-            if len([x for x in ids if x not in ("const", "static", "unsigned", "struct")]) >= 2:
-                locals_.add(ids[-1])
-                if "*" not in head:
-                    struct_locals.add(ids[-1])
-                return True
-        # declaration (with or without initialiser), possibly several declarators
-        m = re.match(r"^(?:const\s+|static\s+|unsigned\s+)*(?:struct\s+)?[A-Za-z_]\w*(?:\s+complex)?\b(?:\s+const)?\s*((?:\**\s*(?:const\s+)?[A-Za-z_]\w*"
-                     r"(?:\[[^\]]*\])*\s*(?:=[^,;]*)?\s*,?\s*)+)$", t, flags=re.S)
-        if m and not re.match(r"^[A-Za-z_]\w*\s*(=|\+=|-=|\[|->|\.|\+\+|--)", t):
-            for d in re.finditer(r"(\**)\s*(?:const\s+)?([A-Za-z_]\w*)\s*(?:\[[^\]]*\])*\s*(?:=[^,]*)?(?:,|$)", m.group(1)):
-                locals_.add(d.group(2))
-                if not d.group(1):
-                    struct_locals.add(d.group(2))
-            return True
-        m = re.match(r"^([A-Za-z_]\w*)\s*(?:\.\s*([A-Za-z_]\w*))?\s*=(?!=)", t)
-        if m:
-            name = m.group(1)
-            if m.group(2) is None and name in locals_ or m.group(2) is not None and name in struct_locals:
-                return True
-            if name == "type":      # vnacal_new_alloc: "type = _VNACAL_E12_UE14" on its by-value argument
-                return True
-        return False
+    def neutral(self, text, locals_=None, struct_locals=None):
+        """declaration / computation on the function's own variables that touches no other memory and calls nothing that could"""
+        t = text.strip()
+        if re.match(r"^(return|goto|break|continue)\b", t):
+            return False
+        return is_neutral_text(t, self.decls)
 
     # ---- compound statements in front of the work
     def body_text(self, st):
@@ -614,22 +807,20 @@ class Translator(object):
         one SReport per test, its condition the ATOM of prefix|header|test"""
         kind = st["kind"]
         head = ("if(%s)" if kind == "if" else "for(%s)") % norm(st["cond"])
+        if not is_neutral_text(st["cond"], self.decls):
+            return None
         pre = prefix + head + "|"
         out = []
         for s in eo.unwrap(st["body"]):
             if s["kind"] == "simple":
                 t = s["text"].strip()
-                if self.neutral(t, self._gl, self._gs):
-                    continue            # declaration / local computation
-                if re.match(r"^[A-Za-z_]\w*\s*\[[^\]]*\]\s*=(?!=)[^;]*;$", t) and "->" not in t.split("=")[0] and not re.search(r"[a-z_]\w*\s*\(", t):
-                    continue            # store into a local array
-                if re.match(r"^\(void\)\s*memset\s*\(\s*\(void\s*\*\)\s*&\s*\w+\s*,", t):
-                    continue            # memset of a local array
+                if self.neutral(t):
+                    continue            # declaration / computation on the function's own variables
                 if re.match(r"^\+\+\s*\w+\s*;$", t):
                     continue
                 return None
             if s["kind"] in ("if", "for"):
-                if neutral_compound(s):
+                if neutral_compound(s, self.decls):
                     continue
                 if s["kind"] == "if" and not s["else"]:
                     callee = [n for n in REPORTING_CALLEES if re.search(r"\b%s\s*\(" % n, s["cond"])]
@@ -655,7 +846,7 @@ class Translator(object):
                 out.extend(inner)
                 continue
             return None
-        if kind == "if" and st["else"] and neutral_compound(st["else"][0]):
+        if kind == "if" and st["else"] and neutral_compound(st["else"][0], self.decls):
             return out or None
         if kind == "if" and st["else"]:
             els = st["else"][0]
@@ -741,18 +932,13 @@ class Translator(object):
 NEUTRAL_CALLEES = set("memset memcpy qsort assert abort MIN MAX sizeof".split()) | PURE_MACROS
 
 
-def neutral_compound(st):
-    """a compound statement that leaves neither the function nor a trace in the object: no return / goto / report, no store
-    through a pointer member, only calls that work on locals"""
+def neutral_compound(st, decls):
+    """a compound statement that leaves neither the function nor a trace outside the function's own variables: no return /
+    goto / report, every store into a declared scalar / structure / array element, every call on the allow-lists"""
     t = st["text"]
-    if re.search(r"\breturn\b|\bgoto\b|_vnacal_error", t) or any(re.search(r"\b%s\s*\(" % n, t) for n in REPORTING_CALLEES):
+    if re.search(r"\breturn\b|\bgoto\b|_vnacal_error|\berrno\b", t) or any(re.search(r"\b%s\s*\(" % n, t) for n in REPORTING_CALLEES):
         return False
-    if re.search(r"->\s*\w+(?:\s*\[[^\]]*\])*\s*(?:=(?!=)|\+\+|--|\+=|-=)", t):
-        return False
-    for c in re.finditer(r"\b([A-Za-z_]\w*)\s*\(", t):
-        if c.group(1) not in NEUTRAL_CALLEES and c.group(1) not in ("if", "for", "while", "switch", "void", "int", "bool"):
-            return False
-    return True
+    return is_neutral_text(t, decls)
 
 
 def strip_keep_chars(text):
@@ -776,6 +962,7 @@ def translate_add_common(tr):
         raise ContractError("%s: the 'rc = -1 ... rc = 0; out: ... return rc;' frame changed" % fn)
     body = re.sub(r"\bgoto\s+out\s*;", "return -1;", body)
     stmts = eo.statements(body)
+    tr.decls = collect_decls(params, body)
     steps, table = [], None
     locals_, structs = set(), set()
     i = 0
@@ -788,9 +975,6 @@ def translate_add_common(tr):
         if st["kind"] == "simple":
             if tr.neutral(text_, locals_, structs):
                 continue
-            m = re.match(r"^\(void\)\s*mem(?:set|cpy)\s*\(\s*\(void\s*\*\)\s*&?\s*(\w+)\s*,", text_)
-            if m and m.group(1) in locals_:
-                continue            # fills a local array
             raise ContractError("%s: statement %r in the argument validation is not a declaration / local computation" % (fn, norm(text_)[:120]))
         if st["kind"] == "switch" and table is None and norm(st["cond"]) == "VL_TYPE(vlp)" and not re.search(r"return|_vnacal_error", text_):
             table = []
@@ -822,7 +1006,7 @@ def translate_add_common(tr):
                         raise ContractError("%s: statement %r in the type switch" % (fn, t))
                     assigns[m.group(1)] = m.group(2)
             continue
-        if neutral_compound(st):
+        if neutral_compound(st, tr.decls):
             continue
         got = tr.compound(fn, st, "-1", locals_)
         if got is None or not all(g.startswith("SReport") for g in got):
